@@ -134,6 +134,10 @@ func runC12(c *c12Case) *c12Obs {
 				cancel()
 				var ms int
 				switch {
+				case c.SendCtx[i] == "dead":
+					// over before the call: nothing of this envelope may ever reach the peer
+					ctx, cancel = context.WithCancel(context.Background())
+					cancel()
 				case strings.HasPrefix(c.SendCtx[i], "deadline:"):
 					_, _ = fmt.Sscanf(c.SendCtx[i], "deadline:%d", &ms)
 					ctx, cancel = context.WithTimeout(context.Background(), time.Duration(ms)*time.Millisecond)
@@ -328,6 +332,15 @@ func judgeC12(c *c12Case, obs *c12Obs, o *Outcome) {
 			}
 		}
 	}
+	for i := range obs.SendErr {
+		if i < len(c.SendCtx) && c.SendCtx[i] == "dead" && obs.SendErr[i] != "" && obs.SendErr[i] != "-" {
+			for _, id := range obs.RecvIDs {
+				if id == c.Stream[i].ID {
+					o.Fail("C12/delivered-although-send-refused/"+fc, "Send of %q was called with a context that was already over and returned %q, yet the receiver was handed that envelope (received ids %v)", id, obs.SendErr[i], obs.RecvIDs)
+				}
+			}
+		}
+	}
 	if obs.RecvTimeouts > 0 {
 		o.Class("receive-timed-out-and-asked-again")
 	}
@@ -436,6 +449,18 @@ func TestC12Sweep(t *testing.T) {
 		plan = append(plan, Fault{Op: FStall, D: 1500})
 		run(&c12Case{Stream: relay, Coalesce: true, RecvCtxMs: 700, ReadChunk: 1, ReadPlan: plan})
 	}
+	// sends whose context is over before the call, at every position of a small stream, alone and in pairs
+	for i := 0; i < len(st); i++ {
+		ctxs := make([]string, len(st))
+		ctxs[i] = "dead"
+		run(&c12Case{Stream: st, SendCtx: ctxs})
+		run(&c12Case{Stream: st, SendCtx: ctxs, TLS: true})
+		for j := i + 1; j < len(st); j++ {
+			c2 := append([]string(nil), ctxs...)
+			c2[j] = "dead"
+			run(&c12Case{Stream: st, SendCtx: c2, Coalesce: true})
+		}
+	}
 	run(&c12Case{Stream: st, WritePlan: []Fault{{Op: FReset}}})
 	run(&c12Case{Stream: st, WritePlan: []Fault{{Op: FPass}, {Op: FPass}, {Op: FReset}}})
 	run(&c12Case{Stream: st, WritePlan: []Fault{{Op: FTimeout}, {Op: FTimeout}, {Op: FTimeout}}})
@@ -503,7 +528,9 @@ func TestC12(t *testing.T) {
 			// some sends are given up on their context while the receiver stalls (longer read stalls make it bite)
 			c.ReadPlan = append([]Fault{{Op: FStall, D: rapid.IntRange(1000, 9000).Draw(rt, "rstall")}}, c.ReadPlan...)
 			for i := 0; i < n; i++ {
-				switch rapid.IntRange(0, 5).Draw(rt, "sctx") {
+				switch rapid.IntRange(0, 6).Draw(rt, "sctx") {
+				case 6:
+					c.SendCtx = append(c.SendCtx, "dead")
 				case 0:
 					c.SendCtx = append(c.SendCtx, fmt.Sprintf("cancel:%d", rapid.IntRange(1, 8000).Draw(rt, "sms")))
 				case 1:
